@@ -92,10 +92,13 @@ func (f *Dotimes) Call(s *slip.Scope, args slip.List, depth int) slip.Object {
 					}
 					return tr
 				case *GoTo:
-					for i++; i < len(args); i++ {
+					for i = 1; i < len(args); i++ {
 						if args[i] == tr.Tag {
 							break
 						}
+					}
+					if len(args) <= i { // not a tag of this body, let an outer tagbody have it
+						return tr
 					}
 				}
 			}
